@@ -32,6 +32,7 @@ CAP_INVS = ["InvNoOverAdmit", "InvConservation", "InvAvailBound", "InvFifo", "In
 POOL_INVS = ["InvPoolLimit", "InvPoolConservation", "InvPoolBounds", "InvPoolFifo", "InvPoolPrompt",
              "InvPoolServed"]
 BARRIER_INVS = ["InvBarrierLimit", "InvBarrierNotEarly", "InvBarrierPrompt", "InvTimePasses", "InvBarrierServed"]
+PREEMPT_INVS = ["InvNoOverAdmit", "InvConservation", "InvAvailBound", "InvAllReturned"]
 # (deviation, module, invariant that must catch it when it is switched on alone)
 DEVIATIONS = [
     ("zero_delay_poll", "Capacity", "InvTimePasses"),
@@ -43,6 +44,7 @@ DEVIATIONS = [
     ("zero_delay_poll", "Barrier", "InvTimePasses"),
     ("barrier_off_by_one", "Barrier", "InvBarrierNotEarly"),
     ("barrier_no_wake", "Barrier", "InvBarrierPrompt"),
+    ("preempted_grant_releasable", "Preempt", "InvNoOverAdmit|InvConservation"),
 ]
 POOL_DEVS = {d for d, m, _ in DEVIATIONS if m == "Pool"}
 PRIMS_OF_KIND = {"fifo": ["Resource", "Semaphore", "PreemptibleResource", "Mutex"], "rwlock": ["RWLock"],
@@ -74,6 +76,12 @@ def barrier_consts(*, nw=4, parties=(1, 2, 3), maxarr=2, dev=()):
     return {"NW": nw, "Parties": "{" + ",".join(str(m) for m in parties) + "}", "MaxArr": maxarr, "Dev": devset(dev)}
 
 
+def preempt_consts(*, nw=3, caps=(1,), maxprio=1, maxarr=1, holds=(0, 2), dev=()):
+    return {"NW": nw, "Caps": "{" + ",".join(map(str, caps)) + "}", "MaxPrio": maxprio, "MaxArr": maxarr,
+            "Holds": "{" + ",".join(map(str, holds)) + "}", "Dev": devset(dev)}
+
+
+PREEMPT_ENVELOPE = dict(nw=3, caps=(1,), maxprio=1, maxarr=1, holds=(2,))
 POOL_ENVELOPE = dict(maxes=(1, 2), nw=3, lat=2, maxarr=2, maxhold=2)
 
 # ---------------------------------------------------------------------------
@@ -88,6 +96,7 @@ def mc_jobs(tier):
         ("cap_main", "CapacityMC", cap_consts("MCQuick" if q else "MCFull"), CAP_INVS, not q, True, big),
         ("pool_12", "Pool", pool_consts((1, 2), maxhold=1 if q else 2), POOL_INVS, not q, False, mid),
         ("barrier", "Barrier", barrier_consts(), BARRIER_INVS, True, False, 1),
+        ("preempt", "Preempt", preempt_consts(**PREEMPT_ENVELOPE), PREEMPT_INVS, True, False, 1 if q else mid),
     ]
     if q:
         jobs.append(("cap_live", "CapacityMC", cap_consts("MCLive"), CAP_INVS, True, False, 1))
@@ -99,17 +108,22 @@ def mc_jobs(tier):
             ("pool_slow", "Pool", pool_consts((1, 2), lat=3, npolls=4, maxarr=3, maxhold=3), POOL_INVS, False, False,
              mid),
             ("pool_nw4", "Pool", pool_consts((1, 2, 3), nw=4, maxarr=2, maxhold=1), POOL_INVS, False, False, mid),
+            ("preempt_cap2", "Preempt", preempt_consts(caps=(1, 2), maxprio=2, holds=(0, 2)), PREEMPT_INVS, False, False,
+             big),
             ("barrier_nw5", "Barrier", barrier_consts(nw=5, parties=(2, 3, 4), maxarr=2), BARRIER_INVS, True, False,
              mid),
         ]
     return jobs
 
 
+LIVENESS = {"Preempt": "EventuallyQuiet"}
+
+
 def run_tlc_job(job):
     name, module, consts, invs, live, dump, workers, label = job
     wd = tlc.workdir(label)
     cfg = tlc.write_cfg(wd / "mc.cfg", spec="Spec" if live else None, constants=consts, invariants=invs,
-                        properties=["EventuallyServed"] if live else [])
+                        properties=[LIVENESS.get(module, "EventuallyServed")] if live else [])
     extra = ["-dump", str(wd / "states")] if dump else None
     res = tlc.run(SPEC / f"{module}.tla", cfg, label=label, workers=workers, timeout=2400, extra=extra,
                   heap="3g" if workers > 1 else "1g", env=JVM_ENV)
@@ -126,6 +140,8 @@ def start_model_checking(tier):
     for dev, module, inv in DEVIATIONS:
         if module == "Pool":
             consts, invs, mod = pool_consts((1,), maxarr=0, maxhold=1, dev=[dev]), POOL_INVS, "Pool"
+        elif module == "Preempt":
+            consts, invs, mod = preempt_consts(maxarr=1, holds=(2,), dev=[dev]), PREEMPT_INVS, "Preempt"
         elif module == "Barrier":
             consts, invs, mod = barrier_consts(nw=3, parties=(2,), maxarr=1, dev=[dev]), BARRIER_INVS, "Barrier"
         else:
@@ -146,7 +162,8 @@ def collect_model_checking(chk, futs):
             _, mod0, dev = name.split("_", 2)
             chk.add_tlc(f"{module} Dev={{{dev}}}", res, count=False, note="sensitivity run, must violate")
             want = next(i for d, m, i in DEVIATIONS if d == dev and m == mod0)
-            chk.require(res.violated == want, f"{mod0}: deviation {dev} not caught by {want} (got {res.violated})")
+            chk.require(res.violated in want.split("|"),
+                        f"{mod0}: deviation {dev} not caught by {want} (got {res.violated})")
             chk.sensitivity[f"{mod0}:{dev}"] = res.violated
             continue
         chk.add_tlc(f"{module} Dev={{}} {name}" + (" +liveness" if live else ""), res,
@@ -399,6 +416,18 @@ def run(tier, seed, replay=None):
         for i, arrs in enumerate(itertools.product(range(be["maxarr"] + 1), repeat=be["nw"])):
             execute(extra.barrier_scenario(n, list(arrs), TICKS[i % 3]), "model")
             chk.replays += 1
+    pe = PREEMPT_ENVELOPE
+    per_w = list(itertools.product(range(1, pe["caps"][0] + 1), range(pe["maxprio"] + 1), (False, True),
+                                   range(pe["maxarr"] + 1), pe["holds"]))
+    pscs = list(itertools.product(per_w, repeat=pe["nw"]))
+    if quick and len(pscs) > 300:
+        pscs = rng.sample(pscs, 300)
+    for i, ws in enumerate(pscs):
+        amt, prio, pre, arr, hold = zip(*ws)
+        execute(extra.preempt_scenario_from_model(pe["caps"][0], amt, prio, pre, arr, hold, TICKS[i % 3],
+                                                  order=None if i % 2 == 0 else list(reversed(range(pe["nw"]))),
+                                                  again=(i % 3 == 0)), "model")
+        chk.replays += 1
     phase["random_and_envelope_runs"] = round(time.time() - t0, 1)
     flush()
 
